@@ -36,7 +36,12 @@ EXECS = [
 ]
 INNER_PLAIN = ["ls", "ls -la", "cat f", "echo hi", "git status", "okcmd a", "rm x", "git push", "frobnicate a", "askcmd", "zap", "zap a b",
                "sh -c ls", "sh -c 'rm x'", "bash -c 'zap'", "env ls", "env rm x", "timeout 5 ls", "nice zap", "time rm x", "xargs ls",
-               "sh -c 'ls; zap'", "X=1 zap", "command -- git push", "nohup frobnicate a", "ls --help", "frobnicate --help"]
+               "sh -c 'ls; zap'", "X=1 zap", "command -- git push", "nohup frobnicate a", "ls --help", "frobnicate --help",
+               # nested shells and wrappers whose inner text carries its own substitutions / redirections:
+               # everything but the local-path lookup must still be analysed inside the container
+               "sh -c 'echo hi > $(rm x)'", "sh -c 'cat < <(zap)'", "bash -c 'ls > /tmp/$(zap)'", "sh -c 'echo $(rm x)'", "sh -c 'cat <<EOF\n$(zap)\nEOF'",
+               "env sh -c 'echo hi >> $(frobnicate a)'", "sh -c 'ls 2> `rm x`'", "sh -c 'echo ${v:-$(zap)}'", "sh -c '{ ls; } > $(rm x)'",
+               "timeout 5 sh -c 'ls > >(zap)'", "sh -c 'sh -c \"echo > \\$(rm x)\"'", "sh -c 'ls; cd /; rm x'", "sh -c 'if ls; then zap; fi'"]
 INNER_PATHY = [("rm /etc/passwd", "rm x"), ("cat /etc/passwd", "cat f"), ("ls /jail/secret", "ls")]
 OUTER = [  # (template with {E} = the exec command, text of the outer part judged alone)
     ("{E} > nogrant", "echo > nogrant"), ("{E} > /jail/out/f", "echo > /jail/out/f"), ("{E} 2> /jail/secret/s", "echo 2> /jail/secret/s"),
